@@ -56,7 +56,9 @@ func newC16Signers(rng *rand.Rand) ([]c16Signer, error) {
 
 func TestC16(t *testing.T) {
 	r := kit.Start(t, "C16", "exploration")
-	r.Rule("blocks of 0..60 otherwise valid transactions signed with ed25519 (batched), secp256r1 and BLS (unbatched) in random mixes, ed25519 counts at/around multiples of the batch size for the worker count, 0..k signatures made invalid (a valid signature over a different message, so it still parses) at PRNG-chosen positions; 1..16 signature workers or serial workers; sequences of 3..6 blocks on one worker pool so that a failed job must not poison the next. Oracle: one-by-one Auth.Verify over UnsignedBytes; Chain.Execute must fail iff some signature is invalid; a call that never returns is judged by a deadlock witness. Distinct = distinct (scheme sequence, invalid positions, workers).")
+	r.Rule("Phase 1 (stock engines): blocks of 0..60 otherwise valid transactions signed with ed25519 (batched), secp256r1 and BLS (unbatched) in random mixes, ed25519 counts at/around multiples of the batch size for the worker count, 0..k signatures made invalid (a valid signature over a different message, so it still parses) at PRNG-chosen positions; 1..16 signature workers or serial workers; sequences of 3..6 blocks on one worker pool so that a failed job must not poison the next; pairs of blocks verified with overlapping lifetimes on one pool. " +
+		"Phase 2 (more than one auth type has a batch verifier): the chain gets an AuthEngines set that, per block, gives each of ed25519 / secp256r1 / BLS / the fixture's SpyAuth (a 4th auth type) either no batch verifier, hypersdk's own ED25519Batch (behind a pass-through tap), or a harness chain.AuthBatchVerifier without cryptography of its own (collects (message, auth) pairs, returns a verify job every k adds and the leftover from Done() as one job or one job per item; k PRNG-chosen from 1, 2..8, count-1, count, count+1, count+7, 1000; verify = the type's own one-by-one Auth.Verify). Blocks of 0..93 transactions over the four types; invalid signatures (honest signature over another message; SpyAuth: marshaled ok=false) are aimed at the LAST PARTIAL batch (the jobs only Done() returns) of exactly one batch-capable type (round robin over the types present), of every batch-capable type, at batches handed out by Add only, at PRNG positions, or nowhere; 3..5 blocks per pool plus overlapping pairs. " +
+		"Oracle (both phases): one-by-one Auth.Verify over UnsignedBytes; Chain.Execute must fail iff some signature is invalid; a call that never returns is judged by a deadlock witness. Counters mb_* show how many blocks had >=2 / >=3 batch-capable types, invalid signatures only in the last partial batch of one type, and how often that type's verifier was NOT the last one drained by AuthBatch.Done (order observed through the verifiers' Done calls; Go map order, random per block). Distinct = distinct (scheme sequence, invalid positions, workers[, batch verifier per type]).")
 	r.Assume("secp256r1 and BLS keys come from crypto/rand (their generators take no seed); key values do not influence any verdict")
 	ctx := context.Background()
 	rng := r.Rand("cases")
@@ -76,6 +78,11 @@ func TestC16(t *testing.T) {
 	var edgeSig ed25519.Signature
 	edgeSig[0] = 1
 	alloc = append(alloc, &genesis.CustomAllocation{Address: auth.NewED25519Address(edgePK), Balance: 1 << 50})
+	// actors of the fixture's SpyAuth (a fourth auth type whose Verify result is a marshaled flag)
+	const c16SpyBase = 16000
+	for i := 0; i < 3; i++ {
+		alloc = append(alloc, &genesis.CustomAllocation{Address: chainfx.SpyAddr(c16SpyBase + i), Balance: 1 << 50})
+	}
 	fx, err := chainfx.New(chainfx.Options{Rules: rules, Alloc: alloc})
 	if err != nil {
 		t.Fatal(err)
@@ -110,6 +117,17 @@ func TestC16(t *testing.T) {
 		act := &chainfx.ProgAction{Nonce: nonce, Start: -1, End: -1}
 		base := chain.Base{Timestamp: ts + 5000, ChainID: rules.ChainID, MaxFee: 1 << 40}
 		tx, err := chain.NewTransaction(base, []chain.Action{act}, &auth.ED25519{Signer: edgePK, Signature: edgeSig})
+		if err != nil {
+			t.Fatal(err)
+		}
+		return tx
+	}
+	mkSpyTx := func(i int, valid bool) *chain.Transaction {
+		nonce++
+		act := &chainfx.ProgAction{Nonce: nonce, Start: -1, End: -1}
+		base := chain.Base{Timestamp: ts + 5000, ChainID: rules.ChainID, MaxFee: 1 << 40}
+		a := chainfx.SpyAddr(c16SpyBase + i)
+		tx, err := chain.NewTransaction(base, []chain.Action{act}, &chainfx.SpyAuth{ActorAddr: a, SponsorAddr: a, Compute: 1, Start: -1, End: -1, OK: valid})
 		if err != nil {
 			t.Fatal(err)
 		}
@@ -307,7 +325,11 @@ func TestC16(t *testing.T) {
 		// Stop of the pool is C26's subject; never let it block this monitor
 		go inst.Close()
 	}
+	// second phase: more than one auth type has a batch verifier (own PRNG stream)
+	if r.Violations() < 8 && hangs < 3 {
+		c16MultiBatch(t, r, fx, ts, &c16MBGen{r: r, rng: r.Rand("multi-batch"), byScheme: byScheme, mkTx: mkTx, mkSpyTx: mkSpyTx})
+	}
 	_ = fmt.Sprint
 	_ = codec.Address{}
-	r.Finish(r.N(80, 2000))
+	r.Finish(r.N(400, 8000))
 }
